@@ -45,12 +45,18 @@ let dump (st : spec_store) : string =
   let parts = List.map (fun (mb, l) -> field_of_str mb ^ "=" ^ String.concat ":" (List.map (fun (k, _) -> string_of_int (int_of_nat k)) l)) (spec_visit st) in
   "D=" ^ String.concat "|" (List.sort compare parts)
 
-(* D=mb=k:k|mb=k -> assoc mb(hex) -> int list *)
+(* D=mb=k:k|mb=k -> assoc mb(hex) -> int list; "k!" = listed, but its content cannot be opened or is not the
+   bytes delivered (then [content_bad] is set) *)
+let content_bad = ref false
 let parse_dump (f : string) : (string * int list) list =
+  content_bad := false;
   let body = String.sub f 2 (String.length f - 2) in
   if body = "" then [] else
   List.map (fun p -> match sp '=' p with
-    | [mb; ks] -> (mb, List.map (fun k -> try int_of_string k with _ -> -1) (sp ':' ks))
+    | [mb; ks] -> (mb, List.map (fun k ->
+        let n = String.length k in
+        let k = if n > 0 && k.[n - 1] = '!' then (content_bad := true; String.sub k 0 (n - 1)) else k in
+        try int_of_string k with _ -> -1) (sp ':' ks))
     | _ -> failwith "bad dump") (sp '|' body)
 
 let removed_tok (l : entry list) = "R=" ^ String.concat "," (List.map (fun e -> field_of_str e.e_mb ^ "." ^ string_of_int (int_of_nat e.e_k)) l)
@@ -158,11 +164,61 @@ let () =
                    | _ -> ()) effops;
                  List.iter (fun (mb, k) -> if not (List.mem k (surv_of mb)) then fail "fresh-mail-lost") !fresh;
                  if cancel > 0 && not racy && int_of_string callbacks > cancel then fail "cancel-not-prompt";
+                 (* what is still listed still has its content *)
+                 if !content_bad then fail "listed-message-content-destroyed";
                  if !bad = "" then "ok" else "fail:" ^ !bad
                end in
              Mlutil.print_model model verdict
          | "PANIC" :: _ -> Mlutil.print_model ["none"; "ok"] "fail:panic"
          | _ -> Mlutil.print_model ["none"; "ok"] "fail:no-answer")
+    | "slow", [_store; period; boxes; target] ->
+        (* a delivery whose body is still arriving while DoScan runs: wherever the store puts the delivery relative to
+           the scan's steps, the new message is young and handles are never reused, so the outcome is the scan of the
+           store that already holds it *)
+        let st0 = fill boxes in
+        let cutoff = z_of_int (- (int_of_string period)) in
+        let tmb = str_of_field target in
+        let st0' = exec st0 (Add (tmb, z_of_int 0, N0, N0)) in
+        let st1 = scan cfg cutoff (enum_all st0') st0' in
+        let gone = List.filter (fun e -> not (List.exists (fun e' -> e'.e_mb = e.e_mb && e'.e_k = e.e_k) st1.live)) st0'.live in
+        let rtok = "R=" ^ String.concat "," (List.sort compare
+                     (List.map (fun e -> field_of_str e.e_mb ^ "." ^ string_of_int (int_of_nat e.e_k)) gone)) in
+        let model = ["ok"; dump st1; rtok] in
+        let verdict = match outs with
+          | [res; d; r] ->
+              if res <> "ok" then "fail:scan-" ^ String.lowercase_ascii res else begin
+                let bad = ref "" in
+                let fail s = if !bad = "" then bad := s in
+                let surv = parse_dump d in
+                let cbad = !content_bad in
+                let surv_of mb = try List.assoc mb surv with Not_found -> [] in
+                let is_exp (v : nat * msg) = expired cutoff (snd v) in
+                let initial = List.map (fun (mb, _) -> (field_of_str mb, snapshot st0 mb)) st0.counts in
+                if r <> "R=" then List.iter (fun t ->
+                  match sp '.' t with
+                  | [mb; k] ->
+                      let snap = (try List.assoc mb initial with Not_found -> []) in
+                      (match List.find_opt (fun (kk, _) -> string_of_int (int_of_nat kk) = k) snap with
+                       | Some v -> if not (is_exp v) then fail "deleted-young"
+                       | None -> fail "deleted-young")
+                  | _ -> fail "bad-removed-log") (sp ',' (String.sub r 2 (String.length r - 2)));
+                List.iter (fun (mb, snap) ->
+                  let s = surv_of mb in
+                  List.iter (fun v ->
+                    let k = int_of_nat (fst v) in
+                    if is_exp v then (if List.mem k s then fail "expired-survived")
+                    else (if not (List.mem k s) then fail "young-missing")) snap) initial;
+                let fk = (try int_of_nat (List.assoc tmb st0.counts) with Not_found -> 0) in
+                if not (List.mem fk (surv_of target)) then fail "fresh-mail-lost";
+                (* listed is not enough: the message must still have the bytes that were delivered *)
+                if cbad then fail "listed-message-content-destroyed";
+                if !bad = "" then "ok" else "fail:" ^ !bad
+              end
+          | ("DELIVERY-STUCK" | "SCAN-STUCK" | "DELIVERY-NEVER-READ") :: _ -> "fail:delivery-stuck"
+          | "DELIVERERR" :: _ -> "fail:delivery-refused"
+          | "PANIC" :: _ -> "fail:panic"
+          | _ -> "fail:no-answer" in
+        Mlutil.print_model model verdict
     | "start", [_store; period; cancel_ms; boxes] ->
         (* the run-loop model (Model/RetentionLoop.v): clock in seconds, Start entered at 0, dates = -age *)
         let st0 = fill boxes in
